@@ -13,7 +13,8 @@ Inductive aop : Type :=
 | ASet (k : string) (j : json)     (* bindings[k] = j *)
 | ACopy (dst src : string)         (* if src in bindings: bindings[dst] = bindings[src] *)
 | ADel (k : string)                (* delete bindings[k] *)
-| ADelAll.                         (* delete every binding *)
+| ADelAll                          (* delete every binding *)
+| APoke (k : string).              (* mutate the value of bindings[k] in place, below the top level *)
 
 Inductive aterm : Type :=
 | TRetBindings                     (* return _.bindings *)
@@ -22,7 +23,8 @@ Inductive aterm : Type :=
 | TRetNonObject                    (* return 42 *)
 | TThrow                           (* throw "boom" *)
 | TLoop                            (* for(;;){} : stopped by the deadline *)
-| TEmitBad.                        (* _.out(function(){}) : unserialisable *)
+| TEmitBad                         (* _.out(function(){}) : unserialisable *)
+| TRetBad.                         (* return {x: function(){}} / {x: 0/0} : not JSON data *)
 
 Record prog : Type := mk_prog { pg_ops : list aop; pg_term : aterm }.
 
@@ -30,6 +32,17 @@ Record prog : Type := mk_prog { pg_ops : list aop; pg_term : aterm }.
 Inductive act : Type :=
 | Js (p : prog)
 | Native (p : prog) (exe_on_error : bool).
+
+(** in-place mutation below the top level: an object gains "poked": 1 (also
+    the first element of an array when it is an object); other arrays gain
+    an element *)
+Definition poke (v : json) : json :=
+  match v with
+  | JObj kvs => JObj (bset "poked" (JNum 4) kvs)
+  | JArr (JObj kvs :: r) => JArr (JObj (bset "poked" (JNum 4) kvs) :: r)
+  | JArr l => JArr (l ++ [JNum 4])
+  | _ => v
+  end.
 
 (** run the mutate/emit operations on a private copy; None = the script
     touched absent (nil) bindings and raised *)
@@ -56,6 +69,11 @@ Fixpoint run_ops (ops : list aop) (b : option bindings) (em : list json)
                   end
               | ADel k => run_ops r (Some (bremove k bs)) em
               | ADelAll => run_ops r (Some []) em
+              | APoke k =>
+                  match lookup k bs with
+                  | Some v => run_ops r (Some (bset k (poke v) bs)) em
+                  | None => run_ops r b em
+                  end
               end
           end
       end
@@ -74,6 +92,7 @@ Definition run_js (p : prog) (bs : option bindings) : exec_raw :=
     | TThrow => mk_raw None true
     | TLoop => mk_raw None true
     | TEmitBad => mk_raw None true
+    | TRetBad => mk_raw None true
     end.
 
 (** the native rendering: same effects; on failure either (nil, err) or the
@@ -91,6 +110,7 @@ Definition run_native (p : prog) (exe_on_error : bool) (bs : option bindings) : 
     | TThrow => fail
     | TLoop => fail
     | TEmitBad => fail
+    | TRetBad => fail
     end.
 
 Definition run_act (a : act) (bs : option bindings) : exec_raw :=
